@@ -7,5 +7,5 @@ Extraction "c06_model.ml"
   xk_serialize xk_parse xk_from_extended xk_to_string xk_of_string priv_valid
   priv_add index_bytes fingerprint identifier neuter ckd_priv ckd_pub ckd derive from_seed
   address address_to_hash160 is_version_address valid_address chain_address
-  ensure_gap set_used gstep grun address_records max_gap
+  ensure_gap set_used gstep grun sstep srun manager_view rows_of address_records max_gap
   normalize_text collapse_ws rm_cjk_spaces is_cjk split_ws join_sp mnemonic_words mnemonic_encode mnemonic_decode digits_lsb val_lsb int_to_bytes.
